@@ -70,6 +70,8 @@ def run(ctx):
     ctx.rule("C10.order", "result unchanged by reordering the mineral list and by simultaneously permuting assemblage and fractions")
     ctx.rule("C10.aligned", "one aligned grain (A = I, f = 1, phi = 1) returns the single-crystal matrix")
     ctx.rule("C10.reject", "unequal grain counts / snapshot counts raise ValueError")
+    ctx.rule("C10.history", "the result is a function of the arguments of the call: a later call in the same process with the same objects holding new "
+             "contents (stiffness record mutated in place, minerals with new snapshots), or with new objects, still equals the reference")
     dotted = "pydrex.minerals.voigt_averages"
     loc = defloc(ctx, dotted)
     I = Interp(ctx.program)
@@ -122,6 +124,32 @@ def run(ctx):
         # same minerals (labels ol/en produce the same symbols), permuted assemblage+fractions
         ident_arr(ctx, "C10.order", "simultaneous permutation of assemblage and fractions", a[0], b[0], loc)
     ctx.floor("C10.average", 4)
+    # call-history independence: module-level state of the interpreted program persists between the calls above and these
+    a_ms = results.get(("olivine", "enstatite"))
+    if a_ms:
+        ms = a_ms[1]
+        phs = [enum(I, "pydrex.core.MineralPhase", a) for a in ("olivine", "enstatite")]
+        C2 = {"olivine": sym_matrix("Dol", 6), "enstatite": sym_matrix("Den", 6)}
+        for label in ("same stiffness record, new contents", "new stiffness record", "same minerals, new snapshots"):
+            if label.startswith("same stiffness"):
+                st.attrs["olivine"], st.attrs["enstatite"] = C2["olivine"], C2["enstatite"]
+                st_k, C_k = st, C2
+            elif label.startswith("new stiffness"):
+                C_k = {"olivine": sym_matrix("Eol", 6), "enstatite": sym_matrix("Een", 6)}
+                st_k = Record(st_cls, dict(C_k))
+            else:
+                st_k, C_k = st, C2
+                for m in ms:
+                    fresh = driver.make_mineral(I, m.attrs["phase"].name, fab[m.attrs["phase"].name], "matrix_dislocation", N0,
+                                                label="h" + m.attrs["phase"].name[:2], nsnap=nsteps, symbolic_n=False)
+                    m.attrs["orientations"], m.attrs["fractions"] = fresh.attrs["orientations"], fresh.attrs["fractions"]
+            try:
+                out = I.call(f, (ms, list(phs), [p, q], st_k))
+                ident_arr(ctx, "C10.history", label, out, ref_average(ms, ("olivine", "enstatite"), (p, q), C_k, nsteps, N0), loc, what="averaged stiffness")
+            except RaiseSig as r:
+                ctx.ob("C10.history", label, False, f"raises {r.exc.typename}", loc)
+        st.attrs["olivine"], st.attrs["enstatite"] = C["olivine"], C["enstatite"]
+    ctx.floor("C10.history", 3)
     # aligned grain
     for ph in ("olivine", "enstatite"):
         m = driver.make_mineral(I, ph, fab[ph], "matrix_dislocation", 1, label="al", nsnap=1, symbolic_n=False)
